@@ -181,9 +181,14 @@ def _walk_container(e, f, t, subs, probs):
     r.ordered = ordered
     r.cost = _cost(e, probs)
     fro, to = [], []
+    fobj, tobj = [], []
     for s in subs:
         x = walk(s, probs)
         r.subs.append(x)
+        if x.kind != 'insert':
+            fobj.append(x.f)
+        if x.kind != 'remove':
+            tobj.append(x.t)
         if x.kind == 'remove':
             if s.to_node is not f:
                 probs.add('structure', 'remove-from', f"{_name(e)}: Remove.remove_from is not the container being edited")
@@ -206,6 +211,18 @@ def _walk_container(e, f, t, subs, probs):
             probs.add('structure', f'{tag}-to-projection:{_name(e)}',
                       f"kept/changed/inserted elements {_short(to)} != elements of the second list {_short(tc)}")
         r.pf, r.pt = ('list', tuple(fro)), ('list', tuple(to))
+        # by identity too: equal-valued siblings are distinct elements, each accounted for exactly once
+        if fro == fc and to == tc:
+            fch, tch = list(f.children()), list(t.children())
+            if len(fobj) == len(fch) and any(x is not y for x, y in zip(fobj, fch)):
+                i = next(i for i, (x, y) in enumerate(zip(fobj, fch)) if x is not y)
+                probs.add('structure', f'list-from-identity:{_name(e)}',
+                          f"sub-edit for position {i} of the first list names a different (equal-valued) element object; an "
+                          f"element is accounted for twice and another never: {_short(fc)}")
+            elif len(tobj) == len(tch) and any(x is not y for x, y in zip(tobj, tch)):
+                i = next(i for i, (x, y) in enumerate(zip(tobj, tch)) if x is not y)
+                probs.add('structure', f'list-to-identity:{_name(e)}',
+                          f"sub-edit for position {i} of the second list names a different (equal-valued) element object: {_short(tc)}")
     else:
         if Counter(fro) != Counter(fc):
             probs.add('structure', f'{tag}-from-projection:{_name(e)}',
